@@ -819,6 +819,96 @@ def grow_rule(rep, prog, cfg):
                           "gets an empty slice, returns 0 and the input is reported as an unexpected end of stream" % name)
 
 
+def never_empty_rule(rep, prog, cfg):
+    """Multiplicative growth (`resize(len * k)`) cannot enlarge an empty buffer.  When that is the only way the padded receive
+    buffer of the blocking flavour grows, its length must never reach zero: every path in receive() from a call that shortens the
+    buffer (split_off / parse on it) to the next read or to a return must give the length back (`resize` to a length that does not
+    come out of a multiplication — the length saved before the split, a constant, a `max`).  Otherwise a response that ends exactly at
+    the end of the filled buffer leaves length 0, the growth step is a no-op, the read is handed an empty slice and its 0 is taken for
+    end of stream."""
+    from ..cfg import reach
+    from ..common import ref_field_of_local
+    from ..flow import Flow
+    rule = "C02.grow"
+    lb = conn_bodies(prog)
+    b = lb.get("blocking/receive")
+    if b is None:
+        return
+    RESIZE = "bytes::bytes_mut::BytesMut::resize"
+
+    def resize_kind(fb, t):
+        """'mul' if the new length is a product of the current length, 'floor' otherwise (saved length, constant, max, sum)"""
+        fl = Flow(fb)
+        l = op_local(t["args"][1])
+        if l is None:
+            return "floor"
+        _, seen = fl.sources([l], through_call=lambda t2, kind: range(len(t2["args"])))
+        mul = False
+        other = False
+        for bb2, i2, s2 in fb.stmts():
+            if s2["k"] == "assign" and s2["place"]["l"] in seen and s2["rv"]["k"] == "binop":
+                if s2["rv"]["op"].startswith("Mul") or s2["rv"]["op"].startswith("Shl"):
+                    mul = True
+                elif s2["rv"]["op"].startswith("Add"):
+                    other = True
+        for bb2, t2 in fb.calls():
+            if t2.get("dest") is not None and t2["dest"]["l"] in seen and any(n.endswith("::max") or n.endswith("::saturating_add") or n.endswith("::checked_add")
+                                                                               or n.endswith("::next_power_of_two") for n in callee_names(t2)):
+                other = True
+        return "mul" if mul and not other else "floor"
+
+    growth = []
+    bodies = [b] + [hb for n in READS for hb0 in body_by_name(prog, n) for hb in family(prog, hb0)]
+    for fb in bodies:
+        for bb, t in fb.calls():
+            if RESIZE in callee_names(t) and len(t["args"]) >= 2:
+                growth.append((fb, bb, resize_kind(fb, t)))
+    helper_growth = [k for fb, bb, k in growth if fb is not b]
+    own = [(bb, k) for fb, bb, k in growth if fb is b]
+    if not helper_growth and not any(k == "mul" for _, k in own):
+        return
+    if any(k == "floor" for k in helper_growth):
+        rep.ok(rule, "%s/blocking buffer never empty (growth has a floor)" % cfg)
+        return
+    # growth *after* the read (`read; if len == total { resize(len * 2) }`) leaves `len > total` behind every read, and consuming
+    # parsed bytes lowers both by the same amount: the slice of the next read is never empty, whatever receive() gives back.  Only
+    # growth *before* the read depends on the length being non-zero when it is tested.
+    before = False
+    for fb, rbb, k in growth:
+        if k != "mul":
+            continue
+        gg = Cfg(fb)
+        rd = [bb for bb, t in fb.calls() if any(n in SLICE_READS or (n in READS and fb is b) for n in callee_names(t))]
+        tgt = fb.blocks[rbb]["t"].get("target")
+        after_resize = reach(gg.succs, [tgt] if tgt is not None else [])
+        for r in rd:
+            rt = fb.blocks[r]["t"].get("target")
+            after_read = reach(gg.succs, [rt] if rt is not None else [])
+            if r in after_resize and rbb not in after_read:
+                before = True
+    if not before:
+        rep.ok(rule, "%s/blocking buffer never empty (growth follows the read)" % cfg)
+        return
+    g = Cfg(b)
+    shorten = [(bb, t) for bb, t in b.calls() if any(n in ("bytes::bytes_mut::BytesMut::split_off", "bytes::bytes_mut::BytesMut::split_to", "bytes::buf::buf_impl::Buf::advance",
+                                                           "bytes::bytes_mut::BytesMut::truncate", "bytes::bytes_mut::BytesMut::clear") for n in callee_names(t))
+               and t["args"] and ref_field_of_local(b, op_local(t["args"][0])) is not None]
+    if not shorten:
+        return
+    gives_back = {bb for bb, k in own if k == "floor"}
+    reads = {bb for bb, t in b.calls() if any(n in READS or n in SLICE_READS for n in callee_names(t))}
+    bad = []
+    for sbb, st in shorten:
+        free = reach(g.succs, [st["target"]] if st.get("target") is not None else [], avoid=gives_back)
+        hit = sorted(x for x in free if x in reads or b.blocks[x]["t"]["k"] == "return")
+        if hit:
+            bad.append((sbb, len(hit)))
+    rep.check(not bad, rule, "%s/blocking buffer never empty" % cfg, b.loc(b.span),
+              "Connection::receive shortens the padded receive buffer and can reach the next read (or return) without giving the length back, while the only growth "
+              "step is a multiplication of the current length: a response ending exactly at the end of the filled buffer leaves length 0, `len * k` stays 0, the read "
+              "gets an empty slice and its 0 is reported as end of stream (%d shortening site(s) with such a path)" % len(bad))
+
+
 def run(rep, progs, tier):
     rep.explanation = (
         "Rule-based static analysis (no execution). Decided clauses: (a) only streaming nom combinators "
@@ -854,3 +944,4 @@ def run(rep, progs, tier):
         read_then_parse_rule(rep, prog, cfg)
         valid_prefix_rule(rep, prog, cfg)
         grow_rule(rep, prog, cfg)
+        never_empty_rule(rep, prog, cfg)
